@@ -290,9 +290,68 @@ func one(c *vlib.Ctx, hist []string, sample bool) (string, bool) {
 	return strconv.Itoa(depth) + "|" + strings.ReplaceAll(r.stdout[i:], "\n", ","), true
 }
 
+// exhaustive: every well-formed history of at most maxLen operations over the writing alphabet (sets and
+// defaults of both options, call, ret), WITHOUT merging states: the canonical state of the search above is
+// what the scopes read, which determines the future only if the implementation keeps no hidden copies —
+// exactly what a scoping bug adds (a private shadow that reads like the shared value until the shared
+// value moves on).
+func exhaustive(c *vlib.Ctx, b bnd, maxLen int) {
+	var alpha []string
+	for _, o := range opts {
+		for _, v := range b.values[:2] {
+			alpha = append(alpha, "set:"+o+":"+v)
+		}
+		alpha = append(alpha, "def:"+o)
+	}
+	alpha = append(alpha, "call", "ret")
+	var rec func(h []string, depth int)
+	rec = func(h []string, depth int) {
+		if len(h) > 0 && c.Next() {
+			if c.Expired() {
+				return
+			}
+			c.P.Transitions++
+			one(c, h, false)
+			c.Extra("histories run without state merging", 1)
+		}
+		if len(h) == maxLen {
+			return
+		}
+		for _, op := range alpha {
+			d := depth
+			switch op {
+			case "call":
+				if depth >= b.depth {
+					continue
+				}
+				d++
+			case "ret":
+				if depth == 0 {
+					continue
+				}
+				d--
+			}
+			rec(append(append([]string{}, h...), op), d)
+		}
+	}
+	rec(nil, 0)
+}
+
 func run(c *vlib.Ctx) {
 	setup(c)
 	b := bounds(c.Quick())
+	maxLen := 5
+	if !c.Quick() {
+		maxLen = 6
+	}
+	exhaustive(c, b, maxLen)
+	if c.Shard != 0 {
+		return
+	}
+	bfs(c, b)
+}
+
+func bfs(c *vlib.Ctx, b bnd) {
 	seen := map[string]bool{}
 	queue := [][]string{{}}
 	init0, _ := expected(nil)
@@ -335,8 +394,7 @@ func replay(c *vlib.Ctx, w string) {
 func init() {
 	vlib.Register(&vlib.Check{
 		ID: "C25", Engine: "E3",
-		Rule:   "two options are defined through the Go API (verif/loc non-global, verif/glo Global, default 'd'); breadth-first search over histories of {config get, config set <value>, config default} for both options, the same statements inside an if/foreach block, `call` (enter a function defined for that site) and `ret`, call depth <= D, values V (quick D=3 V={a,b}; thorough D=3 V={a,b,c}); each history is rendered as a program (open calls are closed at the end, every open scope reads both options while unwinding = canonical state), run from a reset session through the session-level fork the interactive shell uses, and the printed values are compared with a frame model: a call starts without overrides and reads through to the session value or default, a non-global set/default in a call stays in that call (blocks share it), global options and session-level sets are seen everywhere; successors with a new canonical state are enqueued until a fixpoint; non-trivial = the history contains a set or default executed inside a call",
-		Shards: func(string) int { return 1 },
+		Rule:   "two options are defined through the Go API (verif/loc non-global, verif/glo Global, default 'd'); breadth-first search over histories of {config get, config set <value>, config default} for both options, the same statements inside an if/foreach block, `call` (enter a function defined for that site) and `ret`, call depth <= D, values V (quick D=3 V={a,b}; thorough D=3 V={a,b,c}); each history is rendered as a program (open calls are closed at the end, every open scope reads both options while unwinding = canonical state), run from a reset session through the session-level fork the interactive shell uses, and the printed values are compared with a frame model: a call starts without overrides and reads through to the session value or default, a non-global set/default in a call stays in that call (blocks share it), global options and session-level sets are seen everywhere; successors with a new canonical state are enqueued until a fixpoint; in addition EVERY well-formed history of at most L operations over {set a|b, default} x both options + call + ret is run without any state merging (quick L=5, thorough L=6), because a hidden per-scope copy is invisible in the canonical state until the shared value moves on; non-trivial = the history contains a set or default executed inside a call",
 		Run:    run,
 		Replay: replay,
 		Assumptions: []string{
